@@ -129,10 +129,10 @@ for d in ../seeded/*/; do
   rm -rf "$W"
 done
 # ---- phase 3: behaviour-preserving refactorings written by independent sub-agents (benign_ext/), except the two
-# that make rules lose their anchors (B1-b1: write/sync/advance moved into a helper; B6-b4: two-bucket validation helper)
+# that makes a rule lose its anchor (B6-b4: two-bucket validation helper)
 for f in ../benign_ext/*.diff; do
   name=$(basename "$f" .diff)
-  case "$name" in B1-b1|B6-b4) continue;; esac
+  case "$name" in B6-b4) continue;; esac
   W=$(mktemp -d /tmp/nutsmut.XXXXXX); cp -r "$BASE"/. "$W"/
   if (cd "$W" && patch -p1 -s < "$OLDPWD/$f" >/dev/null 2>&1) && (cd "$W" && go build ./... 2>/dev/null); then
     cp "$f" "benign/ext-$name.diff"
